@@ -527,6 +527,13 @@ func isLimitErr(err error) string {
 	return ""
 }
 
+// primedNote is appended to the note of every input that ran with primeLen > 0 (replay reads it back).
+const primedNote = "; pooled printer buffers of capacity >= 1024 left by earlier format calls under a larger MaxStringLen"
+const grownNote = "; printer buffers grown by the two earlier format calls of the program"
+
+// strSig replaces the signature of over-long strings (the targeted padding cases name the operation).
+var strSig string
+
 type lenOutcome struct {
 	compileErr error
 	run        *vmRun
@@ -534,6 +541,9 @@ type lenOutcome struct {
 
 // runLen compiles and runs src under the limits and applies the reachable-values oracle.
 func runLen(src string, c cfg, stream, note string) (out lenOutcome) {
+	if primeLen > 0 {
+		note += primedNote
+	}
 	withLimits(c, func() {
 		cp, err := compile(src)
 		if err != nil {
@@ -560,6 +570,9 @@ func runLen(src string, c cfg, stream, note string) (out lenOutcome) {
 		}
 		for _, ov := range over {
 			sig, lim := "string-exceeds-max-string-len", c.maxStr
+			if strSig != "" {
+				sig = strSig
+			}
 			if ov.what == "bytes" {
 				sig, lim = "bytes-exceed-max-bytes-len", c.maxBytes
 			}
@@ -1079,17 +1092,24 @@ func padStream(r *lib.RNG) {
 						continue
 					}
 					src, note := "x := "+call+"\n", op.name+", would-be length "+lib.N(T)
+					if mode == "as-is" {
+						note += "; printers as-is"
+					}
 					primeLen = 0
 					switch mode {
 					case "in-program":
 						src = pregrow(L) + src
-						note += "; printer buffers grown by the two earlier format calls of the program"
+						note += grownNote
 					case "primed":
 						primeLen = 1024
-						note += "; printer buffers of capacity >= 1024 left in the pool by earlier format calls under a larger MaxStringLen"
 					}
 					in := input{Kind: "length", Source: src, MaxStr: c.maxStr, MaxBytes: c.maxBytes, Note: note}
+					if primeLen > 0 {
+						in.Note += primedNote
+					}
+					strSig = "format-padding-exceeds-max-string-len"
 					o := runLen(src, c, "padding", note)
+					strSig = ""
 					res.Count("padding", fmt.Sprint(op.name, L, T, mode), true)
 					var got string
 					switch {
@@ -1137,10 +1157,9 @@ func padStream(r *lib.RNG) {
 					break
 				}
 				pre = pregrow(L)
-				note += "; printer buffers grown by the two earlier format calls of the program"
+				note += grownNote
 			case 1:
 				primeLen = 1024
-				note += "; printer buffers of capacity >= 1024 left in the pool by earlier format calls under a larger MaxStringLen"
 			}
 			src := genPadProg(rr, L, pre)
 			o := runLen(src, c, "padding-gen", note)
@@ -1435,13 +1454,13 @@ func replay(path string) {
 		case "budget":
 			checkBudgets(in.Source, "replay", -1, true, r)
 		case "length", "boundary":
-			primeLen = 0
-			if strings.Contains(in.Note, "printer buffers grown by") {
+			// the printer-pool state the input ran with (inputs without a note: primed, which a correct tree cannot observe)
+			primeLen = 1024
+			if strings.Contains(in.Note, grownNote) || strings.Contains(in.Note, "as-is") {
+				primeLen = 0
 				emptyPrinterPool()
-			} else {
-				primeLen = 1024
 			}
-			runLen(in.Source, cfg{in.MaxStr, in.MaxBytes}, "replay", in.Note)
+			runLen(in.Source, cfg{in.MaxStr, in.MaxBytes}, "replay", strings.Replace(in.Note, primedNote, "", 1))
 			primeLen = 0
 		default:
 			// depth / stack inputs are fixed programs: re-run the whole stream
